@@ -35,6 +35,15 @@ type OblResult struct {
 	finding *Finding
 	replay  string
 	note    string
+	weak    []string // candidate search: the hypotheses without the universally quantified ones (only a replayed model counts)
+}
+
+// hyps are the hypotheses a model for this obligation must satisfy.
+func (r *OblResult) hyps() []string {
+	if r.weak != nil {
+		return r.weak
+	}
+	return r.fr.eng.facts[:r.ob.NFacts]
 }
 
 type Finding struct {
@@ -568,6 +577,33 @@ func decide(ctx *Context, r *OblResult, prop string, baseline map[string]bool, t
 	os.MkdirAll(dir, 0o755)
 	os.WriteFile(filepath.Join(dir, "obligation.txt"), []byte(fmt.Sprintf("property: %s\nobligation: %s\nkind: %s\nposition: %s\nsolver answer: %s (%s)\n\nsolver output:\n%s\n", prop, r.ob.Name, r.ob.Kind, r.ob.Pos, r.status, r.solver, truncate(r.detail, 20000))), 0o644)
 	os.WriteFile(filepath.Join(dir, "query.smt2"), []byte(buildQuery(e.decls, e.facts[:r.ob.NFacts], []string{r.ob.Reach, not(r.ob.Goal)}, "(get-model)\n")), 0o644)
+	if r.status == "unknown" && !noReplay && r.ob.Kind != "effect" {
+		// The solvers gave up, usually over a quantified hypothesis (a loop invariant with forall). Candidate search:
+		// drop the universally quantified hypotheses, ask for a model of the rest and run the real code on it. The
+		// weaker query proves nothing by itself - only a replay that fails on the real code is reported.
+		var weak []string
+		for _, f := range e.facts[:r.ob.NFacts] {
+			if !strings.Contains(f, "(forall ") {
+				weak = append(weak, f)
+			}
+		}
+		if len(weak) < r.ob.NFacts {
+			sr := race(buildQuery(e.decls, weak, []string{r.ob.Reach, not(r.ob.Goal)}, ""), timeout, "")
+			if sr.status == "sat" {
+				r.weak = weak
+				confirmed, log := replayObligation(ctx, r, dir)
+				os.WriteFile(filepath.Join(dir, "replay.log"), []byte("candidate from the query without quantified hypotheses\n"+log), 0o644)
+				if confirmed {
+					r.verdict = "violation"
+					r.status = "sat"
+					r.note = "solvers undecided on the full query; counterexample found without the quantified hypotheses and confirmed on the real code"
+					return
+				}
+				r.weak = nil
+				r.note = "candidate counterexample (quantified hypotheses dropped) did not replay: " + firstLineOf(log)
+			}
+		}
+	}
 	if r.status == "sat" && !noReplay {
 		confirmed, log := replayObligation(ctx, r, dir)
 		os.WriteFile(filepath.Join(dir, "replay.log"), []byte(log), 0o644)
@@ -580,6 +616,11 @@ func decide(ctx *Context, r *OblResult, prop string, baseline map[string]bool, t
 	// An obligation that was discharged on the unchanged tree and now has a counter-model (that the replay could not
 	// turn into a failing run) is reported with the solver's reason attached. A solver that merely gives up
 	// (unknown / timeout, also after the longer retry) is not evidence of a violation: undecided.
+	if len(e.approxLoops) > 0 && r.ob.Kind != "effect" {
+		r.verdict = "undecided"
+		r.note = strings.TrimSpace(r.note + " (" + e.approxLoops[0] + ": summarised by forgetting what it writes, so only a replayed counterexample counts)")
+		return
+	}
 	if (baseline[r.ob.Name] || r.ob.Kind == "effect" && baseline[effectClauseKey(r.ob.Name)]) && r.status == "sat" {
 		r.verdict = "violation-unconfirmed"
 		return
